@@ -336,7 +336,7 @@ pub fn c09(args: &Args) -> Report {
             p.kinds = vec![0, 3, 10000, 30000, 30000, 30001, 1];
         }
         p.times = if i % 5 == 3 { vec![100, 101, 4_102_444_800, 4_102_444_801, u64::MAX - 1, u64::MAX] } else { vec![100, 101, 102, 103] };
-        p.dvals = vec!["".into(), "x".into(), "x\u{0}".into(), "x\u{0}\u{0}".into(), "y".into(), long_d(181, "a"), long_d(182, "a"), long_d(183, "ab"), long_d(183, "ac"), long_d(400, "z1"), long_d(400, "z2")];
+        p.dvals = vec!["".into(), "x".into(), "x:".into(), "x:y".into(), "x\u{0}".into(), "x\u{0}\u{0}".into(), "y".into(), long_d(181, "a"), long_d(182, "a"), long_d(183, "ab"), long_d(183, "ac"), long_d(400, "z1"), long_d(400, "z2")];
         p.content_lens = vec![0, 3];
         p.max_extra_tags = 1;
         let mut mix = Mix::base();
@@ -405,7 +405,7 @@ pub fn c10(args: &Args) -> Report {
         p.authors = vec![author(0), author(1)];
         p.kinds = vec![1, 0, 10002, 30023, 30023, 30024, 7];
         p.times = if i % 5 == 3 { vec![100, 101, 4_102_444_800, u64::MAX - 1, u64::MAX] } else { vec![100, 101, 102, 103, 200] };
-        p.dvals = vec!["".into(), "x".into(), "y".into()];
+        p.dvals = vec!["".into(), "x".into(), "y".into(), "x:y".into(), ":".into()];
         p.content_lens = vec![0, 4];
         p.max_extra_tags = 1;
         let mut mix = Mix::base();
@@ -457,7 +457,7 @@ pub fn c11(args: &Args) -> Report {
         p.authors = vec![author(0), author(1)];
         p.kinds = vec![1, 0, 3, 10002, 30023, 30023, 30024];
         p.times = if i % 5 == 4 { vec![60, 80, (1 << 32) + 100, (1 << 32) + 120, (1 << 40) + 1] } else { vec![60, 80, 100, 120, 140] };
-        p.dvals = vec!["".into(), "x".into(), "x\u{0}".into(), long_d(181, "a"), long_d(182, "a"), long_d(183, "ab"), long_d(400, "z")];
+        p.dvals = vec!["".into(), "x".into(), "x:y".into(), "x:y:z".into(), ":".into(), "https://example.com/a/1".into(), "https".into(), "x\u{0}".into(), long_d(181, "a"), long_d(182, "a"), long_d(183, "ab"), long_d(400, "z")];
         p.content_lens = vec![0, 4];
         p.max_extra_tags = 1;
         let mut mix = Mix::base();
@@ -641,7 +641,7 @@ pub fn c16(args: &Args) -> Report {
         let mut p = Pools::basic();
         p.kinds = vec![1, 7, 0, 10002, 30023, 30024, 20001, 1059];
         p.times = if i % 3 == 2 { vec![100, 101, (1 << 32) + 7, (1 << 33) + 1, u64::MAX - 1] } else { vec![100, 101, 102, 103, 200] };
-        p.dvals = vec!["".into(), "x".into(), "x\u{0}".into(), long_d(181, "a"), long_d(182, "b"), long_d(183, "cd"), long_d(200, "e"), long_d(400, "f"), "\u{1}\u{2}\u{ff}".into()];
+        p.dvals = vec!["".into(), "x".into(), "x\u{0}".into(), long_d(181, "a"), long_d(182, "b"), long_d(183, "cd"), long_d(200, "e"), long_d(400, "f"), "\u{1}\u{2}\u{ff}".into(), "x:y".into(), ":".into()];
         p.content_lens = vec![0, 5, 300];
         let mut mix = Mix::base();
         mix.store_new = 45;
